@@ -1,9 +1,228 @@
-"""Sanitizer stages (Miri / AddressSanitizer / valgrind memcheck) of the memory driver."""
+"""Sanitizer stages of the memory driver `mem`: Miri (UB interpreter), AddressSanitizer
+(nightly -Zsanitizer=address) and valgrind memcheck.  Each stage runs the same driver binary
+(same monitors) on a workload sized for the tool and turns a tool report into a violation;
+a tool that cannot run is reported as inconclusive, never as a violation."""
+import json
+import os
+import re
+import subprocess
+import time
+
+ENV = dict(os.environ)
+ENV["CARGO_NET_OFFLINE"] = "true"
+ENV.setdefault("CARGO_TERM_COLOR", "never")
+
+ASAN_FLAGS = "-Zsanitizer=address -Cforce-frame-pointers=yes"
+TARGET = "x86_64-unknown-linux-gnu"
+
+
+def _last_summary(out):
+    for line in out.splitlines()[::-1]:
+        line = line.strip()
+        if line.startswith("{") and '"type":"summary"' in line:
+            try:
+                return json.loads(line)
+            except Exception:
+                return None
+    return None
+
+
+def miri_env(harness):
+    env = dict(ENV)
+    env["CARGO_TARGET_DIR"] = os.path.join(harness, "target", "miri")
+    env["MIRIFLAGS"] = "-Zmiri-disable-isolation"
+    return env
+
+
+def build_miri(harness, log):
+    t0 = time.time()
+    p = subprocess.run(["cargo", "+nightly", "miri", "run", "--offline", "--bin", "mem", "--", "--prop", "NONE", "--threads", "1"],
+                       cwd=harness, env=miri_env(harness), stdout=subprocess.PIPE, stderr=subprocess.PIPE, text=True)
+    log("[miri build: %.1fs rc=%d]" % (time.time() - t0, p.returncode))
+    if p.returncode != 0 or _last_summary(p.stdout) is None:
+        return False, (p.stderr[-3000:])
+    return True, ""
+
+
+def build_asan(harness, log):
+    env = dict(ENV)
+    env["CARGO_TARGET_DIR"] = os.path.join(harness, "target", "asan")
+    env["RUSTFLAGS"] = ASAN_FLAGS
+    t0 = time.time()
+    p = subprocess.run(["cargo", "+nightly", "build", "--offline", "--profile", "asan", "--target", TARGET, "--bin", "mem"],
+                       cwd=harness, env=env, stdout=subprocess.PIPE, stderr=subprocess.STDOUT, text=True)
+    log("[asan build: %.1fs rc=%d]" % (time.time() - t0, p.returncode))
+    if p.returncode != 0:
+        return None, p.stdout[-3000:]
+    return os.path.join(harness, "target", "asan", TARGET, "asan", "mem"), ""
 
 
 def setup(root, harness, log):
+    ok, msg = build_miri(harness, log)
+    if not ok:
+        log("miri build failed during setup (will be retried by the checks): " + msg[-500:])
+    b, msg = build_asan(harness, log)
+    if b is None:
+        log("asan build failed during setup (will be retried by the checks): " + msg[-500:])
     return 0
 
 
+def _violation(prop, tool, what, report):
+    return {"prop": prop, "monitor": "sanitizer:" + tool, "class": None, "section": "", "k": -1,
+            "detail": {"tool": tool, "what": what, "report": report[-6000:]}}
+
+
+def _empty_summary(prop, tool, tier, seed):
+    return {"type": "summary", "prop": prop, "driver": "mem", "profile": tool, "tier": tier, "seed": seed,
+            "evaluations": 0, "distinct_nontrivial": 0, "counters": {}, "set_sizes": {}, "maxes": {}, "samples": [],
+            "violations": [], "violations_total": 0, "violations_by_class": {}, "harness_errors": [], "sections": []}
+
+
+def _absorb(total, s):
+    total["evaluations"] += s["evaluations"]
+    total["distinct_nontrivial"] += s["distinct_nontrivial"]
+    for k, v in s.get("counters", {}).items():
+        total["counters"][k] = total["counters"].get(k, 0) + v
+    total["violations"] += s.get("violations", [])
+    total["violations_total"] += s.get("violations_total", 0)
+    for k, v in s.get("violations_by_class", {}).items():
+        total["violations_by_class"][k] = total["violations_by_class"].get(k, 0) + v
+    total["harness_errors"] += s.get("harness_errors", [])
+    if len(total["samples"]) < 3:
+        total["samples"] += s.get("samples", [])[:1]
+
+
+def run_miri(harness, prop, tier, seed, ncpu, log):
+    tot = _empty_summary(prop, "miri", tier, seed)
+    rep = {"tool": "miri (cargo +nightly miri run, stacked borrows)", "executions_under_tool": 0, "reports": 0, "shards": 0}
+    inconclusive = []
+    ok, msg = build_miri(harness, log)
+    if not ok:
+        # a compile error is not a verdict; a Miri UB report while running the no-op is impossible
+        inconclusive.append("miri build failed: " + msg[-300:])
+        return tot, rep, inconclusive
+    shards = ncpu
+    scale = "4" if tier == "thorough" else "1"
+    procs = []
+    t0 = time.time()
+    for r in range(shards):
+        cmd = ["cargo", "+nightly", "miri", "run", "--offline", "--bin", "mem", "--", "--prop", prop, "--tier", "quick", "--seed", str(seed),
+               "--threads", "1", "--tiny", "--sanitizer", "--scale", scale, "--kmod", str(shards), "--krem", str(r)]
+        procs.append((r, subprocess.Popen(cmd, cwd=harness, env=miri_env(harness), stdout=subprocess.PIPE, stderr=subprocess.PIPE, text=True)))
+    deadline = 5400 if tier == "thorough" else 1200
+    for r, p in procs:
+        try:
+            out, err = p.communicate(timeout=max(10, deadline - (time.time() - t0)))
+        except subprocess.TimeoutExpired:
+            p.kill()
+            out, err = p.communicate()
+            inconclusive.append("miri shard %d exceeded the watchdog" % r)
+            continue
+        rep["shards"] += 1
+        s = _last_summary(out)
+        if "Undefined Behavior" in err or "error: unsupported operation" in err and "Undefined" in err:
+            rep["reports"] += 1
+            m = re.search(r"error: Undefined Behavior.*", err, re.S)
+            tot["violations"].append(_violation(prop, "miri", "Miri reported undefined behaviour (shard %d of %d, seed %d)" % (r, shards, seed), m.group(0) if m else err))
+            tot["violations_total"] += 1
+            tot["violations_by_class"]["unclassified"] = tot["violations_by_class"].get("unclassified", 0) + 1
+            continue
+        if s is None:
+            inconclusive.append("miri shard %d ended with status %d without a summary: %s" % (r, p.returncode, err[-300:]))
+            continue
+        _absorb(tot, s)
+    rep["executions_under_tool"] = tot["evaluations"]
+    log("[miri %s: %d executions, %d report(s), %.1fs]" % (prop, tot["evaluations"], rep["reports"], time.time() - t0))
+    return tot, rep, inconclusive
+
+
+def run_asan(harness, prop, tier, seed, ncpu, log):
+    tot = _empty_summary(prop, "asan", tier, seed)
+    rep = {"tool": "AddressSanitizer (rustc nightly -Zsanitizer=address, opt-level 1)", "executions_under_tool": 0, "reports": 0}
+    inconclusive = []
+    binp, msg = build_asan(harness, log)
+    if binp is None:
+        inconclusive.append("asan build failed: " + msg[-300:])
+        return tot, rep, inconclusive
+    env = dict(ENV)
+    env["ASAN_OPTIONS"] = "detect_leaks=0:halt_on_error=1:abort_on_error=0:symbolize=1"
+    args = [binp, "--prop", prop, "--tier", tier, "--seed", str(seed), "--threads", str(min(6, ncpu)), "--sanitizer"]
+    if tier == "thorough":
+        args += ["--scale", "0.5"]
+    t0 = time.time()
+    try:
+        p = subprocess.run(args, cwd=harness, env=env, stdout=subprocess.PIPE, stderr=subprocess.PIPE, text=True, timeout=5400 if tier == "thorough" else 1200)
+    except subprocess.TimeoutExpired:
+        inconclusive.append("asan run exceeded the watchdog")
+        return tot, rep, inconclusive
+    if "ERROR: AddressSanitizer" in p.stderr:
+        m = re.search(r"==\d+==ERROR: AddressSanitizer.*", p.stderr, re.S)
+        report = m.group(0) if m else p.stderr
+        if "ndarray_stats" in report:
+            rep["reports"] += 1
+            tot["violations"].append(_violation(prop, "asan", "AddressSanitizer report with a frame of the crate under observation", report))
+            tot["violations_total"] += 1
+            tot["violations_by_class"]["unclassified"] = 1
+        else:
+            # no frame of ndarray-stats in the report: stack-use-after-scope noise of ASan after unwinding in harness/std code
+            rep["harness_only_reports_ignored"] = rep.get("harness_only_reports_ignored", 0) + 1
+            rep["ignored_report_head"] = report[:600]
+            inconclusive.append("asan reported an error without any ndarray_stats frame (run stopped early): " + report[:200])
+        return tot, rep, inconclusive
+    s = _last_summary(p.stdout)
+    if s is None:
+        inconclusive.append("asan run ended with status %d without a summary: %s" % (p.returncode, p.stderr[-300:]))
+        return tot, rep, inconclusive
+    _absorb(tot, s)
+    rep["executions_under_tool"] = tot["evaluations"]
+    log("[asan %s: %d executions, %d report(s), %.1fs]" % (prop, tot["evaluations"], rep["reports"], time.time() - t0))
+    return tot, rep, inconclusive
+
+
+def run_memcheck(harness, prop, tier, seed, ncpu, log, binp):
+    tot = _empty_summary(prop, "memcheck", tier, seed)
+    rep = {"tool": "valgrind memcheck on the plain release binary", "executions_under_tool": 0, "reports": 0}
+    inconclusive = []
+    args = ["valgrind", "--error-exitcode=9", "--quiet", "--fair-sched=yes", binp, "--prop", prop, "--tier", "quick", "--seed", str(seed), "--threads", "4", "--sanitizer"]
+    if tier == "thorough":
+        args += ["--scale", "0.3"]
+    else:
+        args += ["--tiny"]
+    t0 = time.time()
+    try:
+        p = subprocess.run(args, cwd=harness, env=ENV, stdout=subprocess.PIPE, stderr=subprocess.PIPE, text=True, timeout=5400 if tier == "thorough" else 1200)
+    except subprocess.TimeoutExpired:
+        inconclusive.append("memcheck run exceeded the watchdog")
+        return tot, rep, inconclusive
+    errs = [l for l in p.stderr.splitlines() if re.match(r"==\d+== (Invalid|Conditional jump|Use of uninit|Mismatched|Source and dest|Argument .* points|Syscall param)", l)]
+    if p.returncode == 9 or errs:
+        rep["reports"] += len(errs) or 1
+        tot["violations"].append(_violation(prop, "memcheck", "valgrind memcheck reported a memory error", p.stderr))
+        tot["violations_total"] += 1
+        tot["violations_by_class"]["unclassified"] = 1
+        return tot, rep, inconclusive
+    s = _last_summary(p.stdout)
+    if s is None:
+        inconclusive.append("memcheck run ended with status %d without a summary: %s" % (p.returncode, p.stderr[-300:]))
+        return tot, rep, inconclusive
+    _absorb(tot, s)
+    rep["executions_under_tool"] = tot["evaluations"]
+    log("[memcheck %s: %d executions, %d report(s), %.1fs]" % (prop, tot["evaluations"], rep["reports"], time.time() - t0))
+    return tot, rep, inconclusive
+
+
 def run_stage(stage, root, harness, prop, tier, seed, ncpu, log):
-    return {"summaries": [], "report": {"tool": stage.get("tool"), "status": "not built yet"}, "inconclusive": []}
+    tool = stage["tool"]
+    if tier not in stage.get("tiers", ["quick", "thorough"]):
+        return {"summaries": [], "report": {"tool": tool, "status": "not part of the %s tier" % tier}, "inconclusive": []}
+    if tool == "miri":
+        tot, rep, inc = run_miri(harness, prop, tier, seed, ncpu, log)
+    elif tool == "asan":
+        tot, rep, inc = run_asan(harness, prop, tier, seed, ncpu, log)
+    elif tool == "memcheck":
+        tot, rep, inc = run_memcheck(harness, prop, tier, seed, ncpu, log, os.path.join(harness, "target", "release", "mem"))
+    else:
+        return {"summaries": [], "report": {"tool": tool, "status": "unknown tool"}, "inconclusive": ["unknown sanitizer " + tool]}
+    tot["stage"] = "sanitizer:" + tool
+    rep["status"] = "ran"
+    return {"summaries": [tot], "report": rep, "inconclusive": inc}
